@@ -63,6 +63,7 @@ EXPECT = {
     'ZQ1': [('FixtureLint::Dratio', 'tx/ty')],
     'PRT1': [('FixtureLint::From', 'case [[1, 2]]')],
     'TW1': [('FixtureLint::Far', 'dlon')],
+    'ANG1': [('FixtureLint::Units', 'units')],
     'CP1': [('FixtureLint::Pad', 'easting/northing')],
     'X7r': [('FixtureShared::HalfFilled', 'alpha_')],
     'K7': [('FixtureRaster::probe', 'B1 filepos column')],
@@ -146,6 +147,9 @@ def run_controls(rules):
         elif r == 'TW1':
             from .rules import lint
             res = lint.rule_TW1(fx, None)[0]
+        elif r == 'ANG1':
+            from .rules import angles
+            res = angles.rule_ANG1(fx, None)[0]
         elif r == 'CP1':
             from .rules import lint
             res = lint.rule_CP1(fx, None)[0]
